@@ -90,6 +90,7 @@ def netlists(
     recency_bias: bool = True,
     dup_rate: int = 0,  # out of 8: chance that a gate literally duplicates an earlier gate
     const_operands=(0,),  # admissible operand counts of ALWAYS_TRUE / ALWAYS_FALSE gates
+    sinks_as_outputs: bool = False,  # additionally list every gate nobody uses as an output (no dead logic)
 ):
     """Well-formed DAG netlist; gates listed inputs first then topologically."""
     types = list(types) if types is not None else ALL_TYPES
@@ -111,8 +112,14 @@ def netlists(
             src = gates[n_in + draw(st.integers(0, k - n_in - 1))]
             if src[1] in types:
                 ops = list(src[2])
-                if len(ops) >= 2 and draw(st.booleans()):
+                variant = draw(st.sampled_from(['same', 'rotate', 'repeat_operand', 'drop_operand']))
+                if variant == 'rotate' and len(ops) >= 2:
                     ops = ops[1:] + ops[:1]
+                elif variant == 'repeat_operand' and src[1] in NARY and len(ops) < max(max_arity, 3):
+                    # near duplicate: same operand set, one operand repeated (matters for XOR/NXOR parity)
+                    ops = ops + [ops[draw(st.integers(0, len(ops) - 1))]]
+                elif variant == 'drop_operand' and src[1] in NARY and len(ops) >= 3:
+                    del ops[draw(st.integers(0, len(ops) - 1))]
                 gates.append([labels[k], src[1], ops])
                 continue
         ar = _arity_for(draw, typ, max_arity, const_operands, avail)
@@ -135,6 +142,11 @@ def netlists(
         for _ in range(n_out):
             off = draw(st.integers(0, hi - lo))
             outs.append(gates[hi - off][0])
+    if sinks_as_outputs:
+        used = {o for g in gates for o in g[2]}
+        for g in gates:
+            if g[1] != 'INPUT' and g[0] not in used and g[0] not in outs:
+                outs.append(g[0])
     inputs = [labels[i] for i in range(n_in)]
     if n_in > 1 and draw(st.integers(0, 4)) == 0:
         inputs = draw(st.permutations(inputs))
